@@ -96,6 +96,9 @@ PAIRS = {
     "aoh_ids": (lambda a, b, c, d: (cmap(("w", cseq(cmap(("id", a), ("v", 1)), cmap(("id", b), ("v", 2))))),
                                     cmap(("w", cseq(cmap(("id", c), ("v", 3)))))),
                 "{w: [{id: a, v: 1}, {id: b, v: 2}]} <- {w: [{id: c, v: 3}]} (symbolic identity keys)"),
+    "aoh_strids": (lambda a, b, c, d: (cmap(("w", cseq(cmap(("id", "2"), ("v", a)), cmap(("id", "true"), ("v", b)), cmap(("id", "1.5"), ("v", 0))))),
+                                       cmap(("w", cseq(cmap(("id", "true"), ("v", c)), cmap(("id", "2"), ("v", d)), cmap(("id", "1.5"), ("x", 1)))))),
+                   "AoH whose identity values are strings spelling a number / boolean"),
     "aoh_noid": (lambda a, b, c, d: (cmap(("w", cseq(cmap(("id", 1), ("v", a))))),
                                      cmap(("w", cseq(cmap(("id", 1), ("v", c)), cmap(("v", d)))))),
                  "right record lacks the identity key"),
@@ -184,7 +187,7 @@ def _mk(pair, fixed=None):
                   bounds={"policies": "3x4x5x3 selectors, read lazily", "a,b,c,d": "[-9,9]"})]
 
 
-QUICK = ["scalars", "nested", "arrays", "aoh", "clash_list_over_scalar", "clash_emptylist_over_scalar", "clash_scalar_over_map",
+QUICK = ["scalars", "nested", "arrays", "aoh", "aoh_strids", "clash_list_over_scalar", "clash_emptylist_over_scalar", "clash_scalar_over_map",
          "clash_map_over_list", "root_lists", "root_map_scalar", "sets", "empties", "root_list_map", "root_aoh"]
 
 
